@@ -247,24 +247,50 @@ func ruleNameDispatch(c *eng.Ctx) {
 			c.Undec(R, fnName, token.NoPos, "anchor not found")
 			continue
 		}
-		okIdx := false
-		eng.Instrs(fn, false, func(in ssa.Instruction) {
-			ia, ok := in.(*ssa.IndexAddr)
-			if !ok {
-				return
+		// the byte itself (parameter or ranged element), without arithmetic
+		rawByte := func(v ssa.Value) bool {
+			switch x := v.(type) {
+			case *ssa.Parameter:
+				return true
+			case *ssa.UnOp:
+				_, isEl := x.X.(*ssa.IndexAddr)
+				return isEl && x.Op == token.MUL
 			}
-			if fr, ok := eng.AsField(ia.X); ok && fr.Field == "table" {
-				// index is the byte itself (parameter or ranged element), without arithmetic
-				switch x := ia.Index.(type) {
-				case *ssa.Parameter:
-					okIdx = true
-				case *ssa.UnOp:
-					if _, isEl := x.X.(*ssa.IndexAddr); isEl && x.Op == token.MUL {
-						okIdx = true
+			return false
+		}
+		var lookupOK func(f *ssa.Function, depth int) bool
+		lookupOK = func(f *ssa.Function, depth int) bool {
+			if f == nil || f.Blocks == nil || depth > 2 {
+				return false
+			}
+			found := false
+			eng.Instrs(f, false, func(in ssa.Instruction) {
+				switch x := in.(type) {
+				case *ssa.IndexAddr:
+					if fr, ok := eng.AsField(x.X); ok && fr.Field == "table" && rawByte(x.Index) {
+						found = true
+					}
+				case ssa.CallInstruction:
+					// the byte handed on unchanged to a function that does the lookup (the per-byte Decode,
+					// or a shared decode loop instantiated for this encoding)
+					g := eng.StaticCallee(x)
+					if g == nil || !eng.InModule(g) || g == f {
+						return
+					}
+					for _, a := range x.Common().Args {
+						bt, isB := a.Type().Underlying().(*types.Basic)
+						_, isSl := a.Type().Underlying().(*types.Slice)
+						if (isB && bt.Kind() == types.Uint8 && rawByte(a)) || isSl {
+							if lookupOK(g, depth+1) {
+								found = true
+							}
+						}
 					}
 				}
-			}
-		})
+			})
+			return found
+		}
+		okIdx := lookupOK(fn, 0)
 		c.Check(okIdx, R, fnName+"#lookup", fn.Pos(), "table[b]", "the table is not indexed directly with the input byte")
 	}
 }
